@@ -550,6 +550,23 @@ def run_gauge(case):
     return None
 
 
+def known_findings_present(k):
+    """F14 (C07 part): the bond-optimized molecular constructors on all-zero coefficient tensors, replayed on every run"""
+    if k.get('key') != 'zero-operator-raises':
+        return False
+    import pytenet as ptn
+    hits = 0
+    for f in (lambda: ptn.molecular_hamiltonian_mpo(np.zeros((3, 3)), np.zeros((3, 3, 3, 3))),
+              lambda: ptn.spin_molecular_hamiltonian_mpo(np.zeros((2, 2)), np.zeros((2, 2, 2, 2)))):
+        try:
+            f()
+        except AssertionError:
+            hits += 1
+        except Exception:
+            pass
+    return hits == 2
+
+
 def run_case(case):
     """the property on one input: None or a description of the violation"""
     if case.get('clause') == 'gauge':
